@@ -257,11 +257,11 @@ func init() {
 		Instances: func(tier string) []Instance {
 			out := []Instance{
 				inst("internal/receiver", "HMetadata", "n", 1, "m", 1),
-				inst("internal/sender", "HFlistEncode", "n", 1, "split", 0),
+				inst("internal/sender", "HFlistEncode", "n", 1, "split", 1),
 				inst("internal/receiver", "HFlistDecode", "k", 1, "opts", -1, "same", 0),
 			}
 			if tier == "thorough" {
-				out = append(out, inst("internal/receiver", "HMetadata", "n", 2, "m", 2), inst("internal/sender", "HFlistEncode", "n", 3, "split", 0))
+				out = append(out, inst("internal/receiver", "HMetadata", "n", 2, "m", 2), inst("internal/sender", "HFlistEncode", "n", 3, "split", 1))
 			}
 			return out
 		},
@@ -291,6 +291,43 @@ func init() {
 		Outside:   "destination mtimes outside the int32 range; time.Truncate(time.Second) is modelled as clearing the nanosecond field",
 	})
 	reg(&Property{
+		ID: "C13",
+		Instances: func(tier string) []Instance {
+			out := []Instance{
+				inst("internal/sender", "HFilterMatch", "k", 1),
+				inst("internal/sender", "HFilterMatch", "k", 2),
+				inst("internal/sender", "HFilterWalk", "n", 2, "k", 1),
+				inst("internal/sender", "HFilterWalk", "n", 2, "k", 2),
+				inst("internal/maincmd", "HClientSendFilter"),
+				func() Instance { i := inst("internal/sender", "HHostileFilter", "L", 9, "nameLen", 1); i.MaxAlloc = 8; return i }(),
+			}
+			if tier == "thorough" {
+				out = append(out, inst("internal/sender", "HFilterMatch", "k", 3), inst("internal/sender", "HFilterMatch", "k", 4), inst("internal/sender", "HFilterWalk", "n", 3, "k", 2))
+			}
+			return out
+		},
+		MustReach: []string{"excluded", "kept", "listed", "dropped", "norules", "parsed"},
+		Redirects: sym.VfsRedirects(),
+		Bounds:    "k rules sent through the real wire parser, each exclude or include with a symbolic one-letter pattern (a..d); names at top level or one level deep; walk: n top-level entries with symbolic distinct names, files or directories (a directory holds one child with a symbolic name), real io/fs.WalkDir; client-side sender (push/local) with a concrete exclude rule; rule syntax: arbitrary rule bytes (HHostileFilter) never panic",
+		Outside:   "patterns longer than one letter or containing '/', deeper trees, -f/--include/--exclude option parsing (rule strings are given to the option struct directly), pull arrangement end to end (the rules travel as wire bytes, which is what HFilterMatch/HFilterWalk consume)",
+	})
+	reg(&Property{
+		ID: "C14",
+		Instances: func(tier string) []Instance {
+			out := []Instance{
+				inst("internal/rsyncopts", "HServerOptions", "split", 1, "delete", 1),
+				inst("internal/sender", "HFlistEncode", "n", 1, "split", 1),
+				inst("internal/receiver", "HFlistDecode", "k", 1, "opts", -1, "same", 0),
+				inst("internal/maincmd", "HPush"),
+			}
+			return out
+		},
+		MustReach: []string{"done", "args", "deleted", "kept", "rdev", "target"},
+		Redirects: sym.VfsRedirects(),
+		Bounds:    "option agreement: every subset of -n -l -o -g --devices --specials -t -p -r -c -I -u --delete in both directions: client ServerOptions() -> real server-side ParseArguments; stream agreement: sender encoder and receiver decoder each against the protocol-27 reference codec under every subset of the options that add fields; push end to end (client-side sender -> receiving server started with the client's arguments) for every subset of -p -t -l -o -g -D -c --delete and an exclude rule, on a tree of directories",
+		Outside:   "--no-* spellings and -a (the client's own parsing of its command line); pull and local arrangements end to end; sessions that transfer file data (covered per file by C01/C02)",
+	})
+	reg(&Property{
 		ID: "C15",
 		Instances: func(tier string) []Instance {
 			out := []Instance{
@@ -298,7 +335,7 @@ func init() {
 				inst("internal/receiver", "HFlistDecode", "k", 1, "opts", -1, "same", 0),
 				inst("internal/receiver", "HFlistDecode", "k", 2, "opts", 31, "same", 31),
 				inst("internal/receiver", "HFlistDecode", "k", 2, "opts", 4, "same", 16),
-				inst("internal/sender", "HFlistEncode", "n", 1, "split", 0),
+				inst("internal/sender", "HFlistEncode", "n", 1, "split", 1),
 			}
 			if tier == "thorough" {
 				out = append(out,
